@@ -159,7 +159,7 @@ Lemma mesh_rotate90_inv ip m a b k ref m' :
   mesh_rotate90 ip m a b k ref = OK m' ->
   exists r' i1 i2, region_rotate90 ip (reg m) a b k ref = OK r' /\
     dim2index (reg m) a = OK i1 /\ dim2index (reg m) b = OK i2 /\
-    reg m' = r' /\ n m' = rot_n k i1 i2 (n m) /\ bc m' = bc m.
+    reg m' = r' /\ n m' = rot_n k i1 i2 (n m) /\ bc m' = rot_bc k a b (bc m).
 Proof.
   unfold mesh_rotate90.
   destruct (region_rotate90 ip (reg m) a b k ref) as [r'|]; [|discriminate]. cbn [bind].
